@@ -7,12 +7,27 @@ C11 — The compiler is total: valid IDL yields valid code, bad input a diagnost
   For every other input text the compiler terminates promptly with a non-zero exit status and
   an error message, never with a runtime panic, a stack overflow or a hang."
 
-What is proved here (model: FV/Model/Compile.lean, the shared front end and the Go casing
-path, with Go's run-time checks kept as explicit `panic` outcomes) and what is not:
-see the end of this file and `level_note` in bin/props_d/c11.py.
+What is proved here (model: FV/Model/Compile.lean — the shared front end and the Go casing
+path, with Go's run-time checks kept as explicit `panic` outcomes; specification:
+FV/Spec/Compile.lean — `Valid`, `ValidProg`, written over the syntax without calling a validator):
+* valid ⇒ ok: `c11_valid_front_ok` (file), `c11_valid_program_ok` (program: includes first);
+  conversely `c11_validated_is_valid`, `c11_front_ok_main_valid`: `validate` returns nil EXACTLY
+  on the valid files (so `Valid` is decidable).
+* invalid ⇒ diagnosed: `c11_invalid_diagnosed` (¬Valid ⇒ `validate = err`, never a panic),
+  kind by kind in `c11_invalid_kinds_diagnosed` and `c11_include_kinds_diagnosed`.
+* never a stack overflow / a panic: `c11_underlying_terminates`, `c11_no_stack_overflow`,
+  `c11_cyclic_typedef_rejected`, `c11_casing_total`, `c11_gen_param_total`.
+What is not: `Valid` is what `validate` is responsible for, not all of Thrift validity (duplicate
+type/constant/field names, constant VALUES that do not fit their type, unknown `extends`, duplicate
+ids in `throws` are checked by nothing — `c11_unknown_extends_accepted_counterexample`, finding
+`unchecked-semantic-errors`); constant-value generation and the generator bodies are censused, not
+modelled; well-formedness of the emitted files is checked by external parsers on samples only
+(`level_note` in bin/props_d/c11.py).
 -/
 import FV.Model.Compile
 import FV.Proofs.Compile
+import FV.Spec.Compile
+import FV.Proofs.CompileF
 import FV.Generated.Census11
 
 namespace FV.C11
@@ -62,47 +77,118 @@ theorem c11_gen_param_total (gen : Name) : ∀ p, cleanGenParam gen ≠ .panic p
 theorem c11_lowerFirst_total_on_identifiers (s : Name) (h : s ≠ []) : ∃ r, lowerFirst s = .ok r :=
   lowerFirst_isOk s h
 
-/-- PARTIAL (named plainly): `valid ⇒ ok` for the modelled Go path, with `valid` taken as
-"`validate` returned nil" (`validateFile ctx = ok`). On every validated file no modelled panic
-site of the Go generation path is reachable: every declared identifier goes through `title`
-and every used type through `UnderlyingType` without a panic outcome.
-MISSING for the full `c11_valid_front_ok`: a declarative `Valid : Prog → Prop` written
-independently of `validate` with `Valid p → front p = ok`; the harness checks that direction on
-every generated valid program instead (op `val`: real verdict `ok`, model verdict `ok`). -/
-theorem c11_valid_front_ok_partial (ctx : Ctx) (h : validateFile ctx = .ok ()) :
-    goPath ctx = .ok () ∧ (∀ n ∈ ctx.self.declaredNames, ∃ r, title n = .ok r) ∧
+/-- valid ⇒ ok, file level. `Valid` (FV/Spec/Compile.lean) is the declarative specification,
+written over the syntax without calling any validator. A valid file passes `validate`, and on it
+no modelled panic site of the Go generation path is reachable: every declared identifier goes
+through `title` and every used type through `UnderlyingType` without a panic outcome. -/
+theorem c11_valid_front_ok (ctx : Ctx) (h : Valid ctx) :
+    validateFile ctx = .ok () ∧ goPath ctx = .ok () ∧ (∀ n ∈ ctx.self.declaredNames, ∃ r, title n = .ok r) ∧
     (∀ t ∈ ctx.self.usedTypes, ∃ r, underlying ctx (typedefLimit ctx + 2) t = .ok r) :=
-  ⟨goPath_ok_of_validated ctx h, fun n _ => titleServiceName_isOk n [],
-   fun t _ => c11_underlying_terminates ctx h t _ (Nat.le_refl _)⟩
+  have hv := (valid_iff_validateFile ctx).mp h
+  ⟨hv, goPath_ok_of_validated ctx hv, fun n _ => titleServiceName_isOk n [],
+   fun t _ => c11_underlying_terminates ctx hv t _ (Nat.le_refl _)⟩
+
+/-- … and conversely: what `validate` accepts is valid (the specification is not weaker than the
+validator). Together: `validate` returns nil EXACTLY on the valid files. -/
+theorem c11_validated_is_valid (ctx : Ctx) : validateFile ctx = .ok () ↔ Valid ctx :=
+  (valid_iff_validateFile ctx).symm
+
+/-- valid ⇒ ok, program level: distinct file names, includes that resolve and are acyclic (files
+listed so that each only includes later ones), every file valid ⇒ the whole front end
+(`parseFrugal`: includes first, then `validate`) returns nil and the Go path of the main file
+reaches no modelled panic site. -/
+theorem c11_valid_program_ok (f : File) (rest : Prog) (vp : ValidProg (f :: rest)) : compileGo (f :: rest) = .ok () := by
+  have h1 := front_ok_of_validProg _ vp
+  have h2 := (c11_valid_front_ok _ (vp.files f List.mem_cons_self)).2.1
+  show (front (f :: rest) >>= fun _ => goPath (ctxOf (f :: rest) f)) = .ok ()
+  rw [h1]; exact h2
+
+/-- … and what the front end accepts has a valid main file. -/
+theorem c11_front_ok_main_valid (f : File) (rest : Prog) (h : front (f :: rest) = .ok ()) :
+    ∃ g, findFile (f :: rest) (f.name ++ frugalExt) = some g ∧ Valid (ctxOf (f :: rest) g) :=
+  front_ok_main_valid f rest h
 
 /-- `validate` returns nil exactly when each of its ten parts does (first error wins, in the
 order of the code): the reading of `validate` the diagnosed-kinds theorem below is stated on. -/
 theorem c11_validate_parts (ctx : Ctx) : validateFile ctx = .ok () ↔ FileChecks ctx :=
   validateFile_ok_iff ctx
 
-/-- PARTIAL (named plainly): invalid ⇒ not accepted, for the invalidity kinds `validate` is
-responsible for that are about TYPES RESOLVING and TYPEDEFS: a typedef of an unknown type, a
-struct-like field / return / argument / throws / scope-operation of a type that does not resolve
-make `validate` fail. MISSING: the duplicate-name, duplicate-id, oneway and include kinds as Lean
-theorems (the model implements them and the harness compares the model's error CLASS with the
-real one on injected invalidities of every checked kind, op `val`), and "fails" strengthened to
-"returns an error, never a panic" for the whole of `validate` (proved here for the typedef part:
-`c11_cyclic_typedef_rejected`). -/
-theorem c11_invalid_diagnosed_partial (ctx : Ctx) :
-    ((∃ td ∈ ctx.self.typedefs, isValidType ctx td.ty = false) → validateFile ctx ≠ .ok ()) ∧
-    ((∃ s ∈ ctx.self.scopes, ∃ o ∈ s.ops, isValidType ctx o.ty = false) → validateFile ctx ≠ .ok ()) := by
-  refine ⟨?_, ?_⟩
-  · rintro ⟨td, hm, hinv⟩ hv
-    have ht := ((validateFile_ok_iff ctx).mp hv).typedefs
-    unfold validateTypedefs at ht
-    obtain ⟨⟨⟩, h1, _⟩ := CRes.bind_ok_inv ht
-    have := guardV_ok (firstErr_ok h1 td hm)
-    rw [hinv] at this; cases this
-  · rintro ⟨s, hs, o, ho, hinv⟩ hv
-    have ht := ((validateFile_ok_iff ctx).mp hv).scopes
-    unfold validateScopes at ht
-    have := guardV_ok (firstErr_ok (firstErr_ok ht s hs) o ho)
-    rw [hinv] at this; cases this
+/-- invalid ⇒ diagnosed. A file that is not `Valid` — whose declarations have names, as the
+grammar guarantees — makes `validate` return an ERROR: not nil, and not a panic. -/
+theorem c11_invalid_diagnosed (ctx : Ctx) (hn : NamesNonEmpty ctx.self) (h : ¬ Valid ctx) :
+    ∃ e, validateFile ctx = .err e :=
+  validateFile_err_of_not_valid ctx hn h
+
+/-- The invalidity kinds `validate` is responsible for, one by one: each ⇒ `validate = err`. -/
+theorem c11_invalid_kinds_diagnosed (ctx : Ctx) (hn : NamesNonEmpty ctx.self) :
+    -- a type that does not resolve: typedef target, struct-like field, return, argument, throws,
+    -- scope operation, constant
+    ((∃ td ∈ ctx.self.typedefs, ¬ Resolves ctx td.ty) → ∃ e, validateFile ctx = .err e) ∧
+    ((∃ s ∈ ctx.self.structs, ∃ fl ∈ s.fields, ¬ Resolves ctx fl.ty) → ∃ e, validateFile ctx = .err e) ∧
+    ((∃ s ∈ ctx.self.services, ∃ m ∈ s.methods, ∃ t, m.ret = some t ∧ ¬ Resolves ctx t) → ∃ e, validateFile ctx = .err e) ∧
+    ((∃ s ∈ ctx.self.services, ∃ m ∈ s.methods, ∃ a ∈ m.args, ¬ Resolves ctx a.ty) → ∃ e, validateFile ctx = .err e) ∧
+    ((∃ s ∈ ctx.self.services, ∃ m ∈ s.methods, ∃ a ∈ m.excs, ¬ Resolves ctx a.ty) → ∃ e, validateFile ctx = .err e) ∧
+    ((∃ s ∈ ctx.self.scopes, ∃ o ∈ s.ops, ¬ Resolves ctx o.ty) → ∃ e, validateFile ctx = .err e) ∧
+    ((∃ c ∈ ctx.self.consts, ¬ Resolves ctx c.ty) → ∃ e, validateFile ctx = .err e) ∧
+    -- a constant that refers to an identifier that does not resolve
+    ((∃ c ∈ ctx.self.consts, ∃ id, c.ref = some id ∧ ¬ RefResolves ctx id) → ∃ e, validateFile ctx = .err e) ∧
+    -- duplicate (or only-first-letter-case-different) service / method / scope / operation names
+    (¬ (ctx.self.services.map (nameKey ·.name)).Nodup → ∃ e, validateFile ctx = .err e) ∧
+    ((∃ s ∈ ctx.self.services, ¬ (s.methods.map (nameKey ·.name)).Nodup) → ∃ e, validateFile ctx = .err e) ∧
+    (¬ (ctx.self.scopes.map (nameKey ·.name)).Nodup → ∃ e, validateFile ctx = .err e) ∧
+    ((∃ s ∈ ctx.self.scopes, ¬ (s.ops.map (nameKey ·.name)).Nodup) → ∃ e, validateFile ctx = .err e) ∧
+    -- duplicate field ids in a struct-like, duplicate argument ids
+    ((∃ s ∈ ctx.self.structs, ¬ (s.fields.map (·.id)).Nodup) → ∃ e, validateFile ctx = .err e) ∧
+    ((∃ s ∈ ctx.self.services, ∃ m ∈ s.methods, ¬ (m.args.map (·.id)).Nodup) → ∃ e, validateFile ctx = .err e) ∧
+    -- a oneway method with a result or with throws
+    ((∃ s ∈ ctx.self.services, ∃ m ∈ s.methods, m.oneway = true ∧ (m.ret ≠ none ∨ m.excs ≠ [])) → ∃ e, validateFile ctx = .err e) ∧
+    -- the same file included twice, `vendor` on a `*` namespace, a typedef cycle
+    (¬ (ctx.self.includes.map includeDeclName).Nodup → ∃ e, validateFile ctx = .err e) ∧
+    (ctx.self.vendorWild = true → ∃ e, validateFile ctx = .err e) ∧
+    (¬ TypedefsAcyclic ctx → ∃ e, validateFile ctx = .err e) := by
+  have d := c11_invalid_diagnosed ctx hn
+  refine ⟨?_, ?_, ?_, ?_, ?_, ?_, ?_, ?_, ?_, ?_, ?_, ?_, ?_, ?_, ?_, ?_, ?_, ?_⟩
+  · rintro ⟨td, hm, hr⟩; exact d fun v => hr (v.typedefs td hm)
+  · rintro ⟨s, hs, fl, hf, hr⟩; exact d fun v => hr ((v.structs s hs).1 fl hf)
+  · rintro ⟨s, hs, m, hm, t, ht, hr⟩; exact d fun v => hr ((v.methods s hs m hm).ret t ht)
+  · rintro ⟨s, hs, m, hm, a, ha, hr⟩; exact d fun v => hr ((v.methods s hs m hm).args a ha)
+  · rintro ⟨s, hs, m, hm, a, ha, hr⟩; exact d fun v => hr ((v.methods s hs m hm).excs a ha)
+  · rintro ⟨s, hs, o, ho, hr⟩; exact d fun v => hr (v.ops s hs o ho)
+  · rintro ⟨c, hc, hr⟩; exact d fun v => hr (v.consts c hc).1
+  · rintro ⟨c, hc, id, hi, hr⟩; exact d fun v => hr ((v.consts c hc).2 id hi)
+  · intro hr; exact d fun v => hr v.serviceNames.2
+  · rintro ⟨s, hs, hr⟩; exact d fun v => hr (v.methodNames s hs).2
+  · intro hr; exact d fun v => hr v.scopeNames.2
+  · rintro ⟨s, hs, hr⟩; exact d fun v => hr (v.opNames s hs).2
+  · rintro ⟨s, hs, hr⟩; exact d fun v => hr (v.structs s hs).2
+  · rintro ⟨s, hs, m, hm, hr⟩; exact d fun v => hr (v.methods s hs m hm).argIds
+  · rintro ⟨s, hs, m, hm, ho, hr⟩
+    exact d fun v => by
+      obtain ⟨h1, h2⟩ := (v.methods s hs m hm).oneway ho
+      rcases hr with hr | hr
+      · exact hr h2
+      · exact hr h1
+  · intro hr; exact d fun v => hr v.includes
+  · intro hr; exact d fun v => by rw [v.vendor] at hr; cases hr
+  · intro hr; exact d fun v => hr v.acyclic
+
+/-- The include kinds are diagnosed by `parseFrugal`'s traversal (the include is the next one
+to be loaded): a missing file, a name that ends in neither `.thrift` nor `.frugal`, and an
+include of a file that is being loaded (circular) are errors. -/
+theorem c11_include_kinds_diagnosed (p : Prog) (n : Nat) (vis : List Name) (v : Name) (vs : List Name) :
+    ((hasSuffix v thriftExt || hasSuffix v frugalExt) = false → loadIncludes p n vis (v :: vs) = .err .badIncludeName) ∧
+    ((hasSuffix v thriftExt || hasSuffix v frugalExt) = true → findFile p v = none →
+      loadIncludes p (n + 1) vis (v :: vs) = .err .missingInclude) ∧
+    (∀ f, findFile p v = some f → vis.contains f.name = true → load p (n + 1) vis v = .err .circularInclude) :=
+  ⟨loadIncludes_badName p n vis v vs, loadIncludes_missing p n vis v vs, fun f => load_circular p n vis v f⟩
+
+/-- NOT diagnosed (stated on a witness, as the code is): `extends` of a service that does not
+exist passes `validate` — nothing in frugal checks it (finding `unchecked-semantic-errors`), which
+is why `Valid` does not mention `extends`. -/
+theorem c11_unknown_extends_accepted_counterexample :
+    validateFile { self := { name := "prog".toList,
+                             services := [⟨"Orphan".toList, some "NoSuchService".toList, []⟩] },
+                   incs := [] } = .ok () := by decide
 
 /-- The census of syntactically partial operations of `main.go` and `compiler/**`
 (regenerated from the source on every check) has no unclassified site: each is mapped to the
@@ -135,6 +221,18 @@ example : (∃ e, validateTypedefs exCyclic = .err e) ∧ validateFile exCyclic 
     · exact ⟨.named "B".toList, by simp, by decide⟩
     · exact ⟨.named "A".toList, by simp, by decide⟩)
 example : validateTypedefs exCyclic = .err .typedefCycle := by decide
+-- the specification is satisfiable by a non-trivial file (and decidable)
+example : Valid exChain := by decide
+example : ¬ Valid exCyclic := by decide
+example : ValidProg [exChain.self] where
+  nonempty := by simp
+  distinct := by simp
+  includes := ⟨fun v hv => by simp [exChain] at hv, trivial⟩
+  files := by
+    intro f hf
+    have : f = exChain.self := by simpa using hf
+    subst this
+    decide
 -- a non-trivial file validates; resolution follows the chain; the casing helpers handle empty words
 example : validateFile exChain = .ok () := by decide
 example : underlying exChain (typedefLimit exChain + 2) (.named "b".toList) = .ok (.named "i64".toList) := by decide
